@@ -413,6 +413,45 @@ def _recipes(ctx):
     return els, recipes
 
 
+def drive_lerp(rec):
+    """The Python reference interpolator (interpolate/lerp.py) on an integer table, exact arithmetic."""
+    from chmpy.interpolate.lerp import vectorized_lerp
+    t = dict(rec)
+    t.update(exc="", off=False, obs4=[])
+    t["meta"] = {"recipe": rec, "source": "seeded-lerp", "impl_call": "vectorized_lerp(xs, xp, yp%s%s)" % (
+        ", l_fill" if rec["has_lfill"] else "", ", u_fill" if rec["has_ufill"] else ""), "nontrivial": True}
+    try:
+        xp = np.arange(rec["xp0"], rec["xp0"] + len(rec["yp"]), dtype=np.float64)
+        kw = {}
+        if rec["has_lfill"]:
+            kw["l_fill"] = float(rec["lfill"])
+        if rec["has_ufill"]:
+            kw["u_fill"] = float(rec["ufill"])
+        out = vectorized_lerp(np.array(rec["xs4"], dtype=np.float64) / 4.0, xp, np.array(rec["yp"], dtype=np.float64), **kw)
+        for v in np.asarray(out, dtype=np.float64):
+            k = int(round(float(v) * 4))
+            t["off"] = t["off"] or abs(float(v) * 4 - k) > 1e-9 or not np.isfinite(v)
+            t["obs4"].append(k)
+    except Exception as e:
+        t["exc"] = type(e).__name__
+    return t
+
+
+def lerp_recipes(ctx):
+    rng = random.Random(ctx.seed * 331 + 9)
+    out = []
+    for _ in range(ctx.pick(40, 600)):
+        n = rng.randint(2, 12)
+        xp0 = rng.randint(-5, 5)
+        yp = [rng.randint(0, 1000) for _ in range(n)]
+        lo4, hi4 = 4 * xp0, 4 * (xp0 + n - 1)
+        # distances are never far below the first node (the table starts at r = 0); just below it is the lower fill
+        xs4 = [lo4, hi4, lo4 - 1, hi4 + 1, hi4 + 40, lo4 - 3] + [rng.randint(lo4 - 3, hi4 + 12) for _ in range(12)]
+        out.append({"xp0": xp0, "yp": yp, "xs4": xs4, "has_lfill": rng.random() < 0.3, "lfill": rng.randint(0, 50),
+                    "has_ufill": rng.random() < 0.3, "ufill": rng.randint(0, 50)})
+    return out
+
+
 def run(ctx, explain=False):
     shifts = ctx.pick(1, 3)
     ctx.model_check("mc/MC_Promolecule.tla", MC_CFG % shifts,
@@ -421,6 +460,7 @@ def run(ctx, explain=False):
     traces = pool_map(drive, recipes, chunksize=1)
     ctx.validate("trace/Trace_Promolecule.tla", traces, consts="  TDen = %d\n" % TDEN,
                  batch=ctx.pick(None, 500), timeout=1500)
+    ctx.validate("trace/Trace_Lerp.tla", pool_map(drive_lerp, lerp_recipes(ctx)), timeout=600)
     if ctx.ood:
         raise tlc.TLCFailure("constructed inputs were judged out of domain by TLC (%d): harness bug" % ctx.ood)
     ctx.exhaustive = False
